@@ -95,6 +95,13 @@ CHECKS = {
                 note="Bounded: W=2, T<=3, listed rung systems, F<=1, state cap per configuration in the quick tier (reported in evidence); "
                      "no surrogate fit (num_init_random huge) so only data bookkeeping is judged; DyHPO not covered.",
                 technique="explicit-state model checking of the implementation (BFS over event histories, state invariant)"),
+    "C15": dict(engine="schedx+tunerx", category="model_checking", design_ref="§2 C15",
+                text="Twin exploration: every event history (BFS, dedup on the pair of states) of the stopping/promotion/synchronous "
+                     "Hyperband worlds and of PBT, DEHB, median rule, MOASHA, regularised evolution, FIFO, RUSH and cost-aware "
+                     "schedulers is executed on (mode min, f) and (mode max, -f) and every suggestion and decision compared; Tuner-level "
+                     "twins compare scheduler-call traces, status counters and the reported best configuration.",
+                note="Bounded as C03-C05 (W<=3, T<=5, listed rung/bracket systems); near-tie branches pruned and counted as the property allows.",
+                technique="explicit-state model checking of a product (twin) system: BFS over joint event histories with an equality oracle"),
 }
 
 NOT_YET = {}
